@@ -105,6 +105,8 @@ _a("A-DAG2", [(0, "a", 1), (0, "a", 2), (1, "b", 3), (2, "b", 3), (2, "b", 4), (
 _a("A-DEAD", [(0, "a", 1), (0, "a", 2), (1, "b", 3), (0, "b", 5), (4, "a", 1)], init=[0], final=[3],
    note="arc into a dead state 2 / 5 and an unreachable state 4")
 _a("A-D3", [(0, "a", 1), (0, "a", 2), (1, "b", 3), (2, "b", 3)], init=[0], final=[3], note="a*b + a*c style: two paths, 4 arc weights")
+_a("A-D4", [(0, "a", 1), (0, "a", 2), (0, "b", 1), (0, "b", 2), (1, "c", 3), (2, "c", 3)], init=[0], final=[3],
+   note="two prefixes reach the same state set {1,2} with different residual proportions")
 _a("A-MB", [(0, "é", 1), (0, "è", 1), (0, "a", 1), (1, "€", 2), (1, "₭", 2), (2, "𝄞", 0), (1, EPS, 2), ("a", "é", "b")],
    init=[0, "a"], final=[2, "b"], note="1-4 byte labels with shared byte prefixes, state names equal to symbols")
 _a("A-MB2", [("p0", "é", "p1"), ("p0", "a", "p1"), ("p1", "x", "p2")], init=["p0"], final=["p2"], note="terminal A: é|a then x")
